@@ -48,6 +48,7 @@ import M4riProofs.PleNaive
 import M4riProofs.MathlibSpec
 import M4riProofs.Top
 import M4riProofs.EchelonTop
+import M4riProofs.GenTie
 namespace M4ri.Props.C02
 open M4ri M4ri.BMat
 
@@ -202,5 +203,26 @@ theorem C02_full_hybrid (L1 L2 L3 : Nat) (switch : Nat → Nat → BMat → Bool
 #check @M4ri.BMat.ET.autoK_le_seven
 #check @M4ri.BMat.ET.one_le_autoKTop
 #check @M4ri.BMat.ET.autoK_unrepaired_zero
+
+
+/-! ### tie to the C text: the functions below are GENERATED from /repo/m4ri by vlib/ctrans.py (clang AST) on every
+    check (M4ri/Gen/CFuns.lean); these theorems prove them equal to the hand-written model definitions the theorems
+    above are about, for all arguments of the C domain -/
+#check @M4ri.GenTie.echelonizeSplit6_eq
+#check @M4ri.GenTie.echelonizeSplit5_eq
+#check @M4ri.GenTie.echelonizeSplit4_eq
+#check @M4ri.GenTie.echelonizeSplit3_eq
+#check @M4ri.GenTie.echelonizeSplit2_eq
+#check @M4ri.GenTie.topEchelonizeSplit6_eq
+#check @M4ri.GenTie.topEchelonizeSplit5_eq
+#check @M4ri.GenTie.topEchelonizeSplit4_eq
+#check @M4ri.GenTie.topEchelonizeSplit3_eq
+#check @M4ri.GenTie.topEchelonizeSplit2_eq
+#check @M4ri.GenTie.processRows6Split_eq
+#check @M4ri.GenTie.processRows5Split_eq
+#check @M4ri.GenTie.processRows4Split_eq
+#check @M4ri.GenTie.processRows3Split_eq
+#check @M4ri.GenTie.processRows2Split_eq
+#check @M4ri.GenTie.optK_eq
 
 end M4ri.Props.C02
